@@ -113,6 +113,11 @@ TorVerdict(c) ==
   IF c.angle \notin TorsionNames THEN <<"fail", "InputAngleName", "harness">>
   ELSE IF c.atoms # TorsionDef[c.angle] THEN <<"fail", "AtomsPerIUPAC", "harness">>
   ELSE IF PathFail(c.t1) = "RefDefined" \/ PathFail(c.v2) = "RefDefined" THEN <<"fail", "RefDefined", "harness">>
+  \* a residue lacking one of the four glycosidic atoms has no chi: a number there is not the glycosidic torsion
+  ELSE IF IsChi(c) /\ ~c.t1.present /\ c.t1.asked /\ (~c.t1.undef \/ c.cls # "none")
+       THEN <<"fail", "ChiOnlyFromGlycosidicAtoms", "tertiary">>
+  ELSE IF IsChi(c) /\ ~c.v2.present /\ c.v2.asked /\ ~c.v2.undef
+       THEN <<"fail", "ChiOnlyFromGlycosidicAtoms", "tertiary_v2">>
   ELSE IF PathFail(c.t1) # "ok" THEN <<"fail", PathFail(c.t1), "tertiary">>
   \* A-form chi (about -160 degrees) must be classified anti
   ELSE IF c.t1.present /\ IsChi(c) /\ AFormChi(c.t1.ref.v) /\ c.cls # "anti" THEN <<"fail", "AFormChiAnti", "chi_class">>
